@@ -789,6 +789,9 @@ func replayOnce(bin, path, prop, class, sig, scratch string) (bool, string, stri
 }
 
 func doReplay(prop string, eng *engineDef, path string) int {
+	if abs, err := filepath.Abs(path); err == nil {
+		path = abs
+	}
 	ovDir, ovHash := overlay()
 	bin := buildEngine(eng.name, ovDir, ovHash)
 	scratch := scratchDir()
